@@ -438,7 +438,7 @@ func (this *BlockDecompressor) Decompress() (int, uint64) {
 			if len(oName) == 0 {
 				oName = tmpName
 			} else if inputIsDir == true && specialOutput == false {
-				oName = formattedOutName + tmpName[len(formattedInName):]
+				oName = formattedOutName + relativeToInputDir(formattedInName, tmpName)
 			}
 		}
 
@@ -473,7 +473,7 @@ func (this *BlockDecompressor) Decompress() (int, uint64) {
 			if len(oName) == 0 {
 				oName = tmpName
 			} else if inputIsDir == true && specialOutput == false {
-				oName = formattedOutName + tmpName[len(formattedInName):]
+				oName = formattedOutName + relativeToInputDir(formattedInName, tmpName)
 			}
 
 			taskCtx := make(map[string]any)
